@@ -61,6 +61,19 @@ PROPS = {
         "exhaustive": False,
         "label": "partial: relies on os.Root confinement (assumed); the code's obligation (all destination access goes through the root) is a regenerated theorem",
     },
+    "C07": {
+        "components": ["daemonreq"],
+        "trusted_base": [KERNEL, EXTRACT, HARNESSTB, GEN, FSNOTE,
+                         "modelled, not verified: HandleDaemonConn's line protocol (greeting, module line, flag lines) as the function daemon_request over the model of the option parser; ACL verdict as an input (decided by C19's model)",
+                         "translator tools/gen/fssites.go: position of the `if !module.Writable { return ... }` statement among the file-system call sites of handleConnReceiver; inventory of the sending side's call sites"],
+        "assumptions": [
+            "flag sets that make the parser exit the process (--help, --version, --info=help) are outside this component (C08 finding)",
+            "observation classes: list / unknown-module / denied / parse-error / badargs / sender (daemon sends a file list) / refused-read-only (error frame) / receiver (daemon starts requesting or fails later with a [receiver] error)",
+        ],
+        "rule": "unit: raw daemon-protocol exchanges over in-memory pipes and TCP against servers with 1-3 modules (names that are prefixes of each other, mixed writability, directory- and fs.FS-backed), requested module lines (exact, prefix, unknown, empty, #list, other case, trailing space), flag lines from canonical pull / push / push --delete to a subdirectory / -n and random sequences from a 22-flag pool incl. unknown options, followed by an upload file list; how far the request got vs the model, module snapshots before/after. end to end: real client pushes and hand-written senders into a read-only module x 5 option sets (incl. --delete, -n) x subdirectory targets: snapshot unchanged and an error naming the read-only refusal. fs.FS modules cannot be configured writable. non-trivial = request that reached sender / receiver / refusal",
+        "exhaustive": False,
+        "label": "full",
+    },
     "C10": {
         "components": ["genops", "recvmeta", "ssession", "dryrun"],
         "trusted_base": [KERNEL, EXTRACT, HARNESSTB, GEN, MD4NOTE, FSNOTE,
